@@ -12,11 +12,6 @@ import N0Verif.Proofs.XPathPureApi
 namespace N0.XPath
 open N0 N0.Py N0.Val
 
-/-- fuel bound of the list-side search -/
-def termPotL (H W : Nat) : List Str → Nat → Nat
-  | [], g => termR H W g + g + 2
-  | _ :: ts, g => (W + 3) + max (termPot H W ts H (g + 1)) (termPotL H W ts (g + 1))
-
 theorem termPotL_pos (H W : Nat) (toks : List Str) (g : Nat) : 1 ≤ termPotL H W toks g := by
   cases toks <;> simp only [termPotL] <;> omega
 
@@ -342,14 +337,6 @@ theorem term_findL (ctx : TermCtx H W root) (sp : Pos) (rl : Bool) : ∀ fuel, T
 end
 
 /-! ### entry points -/
-
-/-- **the fuel that is enough** for the string `s` on the tree `t`: the dict-side and the list-side
-bound of its tokens (after a leading `?`), for the height and the width of `t` -/
-def termFuel (t : Val) (s : Str) : Nat :=
-  let H := termHgt t
-  let W := max 1 (termWd t)
-  let toks := tokenize (if startsWith s ['?'] then s.drop 1 else s)
-  max (termPot H W toks H 0) (termPotL H W toks 0)
 
 theorem term_ctx_of {t : Val} (hp : SafeKeys PlainKey t) :
     TermCtx (termHgt t) (max 1 (termWd t)) t :=
